@@ -273,6 +273,7 @@ class CallLog:
 
 
 _RUNS = {}          # rid -> (spec, flat, CallLog)
+_RAISE_COUNT = {}   # rid -> objective calls so far (tasks whose objective aborts the run after a budget)
 _FLAT_CACHE = {}
 
 
@@ -344,6 +345,12 @@ class _MonMixin:
         d = data.get("delay")
         if d:
             _delay(d, x)
+        ra = data.get("raise_after")
+        if ra is not None:
+            cnt = _RAISE_COUNT.get(rid, 0) + 1
+            _RAISE_COUNT[rid] = cnt
+            if cnt > ra:
+                raise RuntimeError("evaluation budget exhausted (raised by the harness objective on purpose)")
         return eval_spec(spec, x, flat)
 
 
